@@ -243,6 +243,36 @@ def rule_auto(ctx, rep, only=None):
                 rep.ok("R-LIFETIME", b["key"], "unsafe fn: the caller chooses and vouches for %s" % unbound, cfg=tag)
             else:
                 rep.bad("R-LIFETIME", b["key"], "safe function `%s` returns a value borrowing for %s, a lifetime that occurs in none of its inputs (and is not outlived by one): the caller may choose any lifetime, `'static` included, so the returned view can outlive the handle or data it refers to" % (b["sig"], ", ".join(unbound)), F.loc(b), tag)
+        # R-SELFREF: a returned reference that is the *handle reference itself* re-typed (`&*(self as *const Self as *const
+        # OffsetArc<T>)`: it points at the handle value - a stack slot or temporary -, not into the allocation) lives no longer
+        # than that reference: its lifetime is the `&self` lifetime, not the payload lifetime the handle type carries
+        from .. import ptrclass as _pc
+
+        Nn = _pc.Norm(F)
+        for b in F.body_list:
+            if b["kind"] not in ("Fn", "AssocFn") or "out_ref_region" not in b or b.get("unsafe") or not balance_is_api(F, b):
+                continue
+            try:
+                nf = Nn.ret(b["key"])
+            except Exception:
+                continue
+            while nf[0] == "mk":
+                break
+            if nf[0] != "arg":
+                continue
+            k = nf[1]
+            irr = b.get("in_ref_regions") or []
+            if k - 1 >= len(irr) or irr[k - 1] is None:
+                continue
+            pointee = F.ty(b["inputs"][k - 1]).get("t")
+            if pointee is None or not F.handle_name(pointee):
+                continue
+            r_in, r_out = irr[k - 1], b["out_ref_region"]
+            ok_ = r_in == r_out or [r_in, r_out] in [list(x) for x in b.get("region_outlives", [])]
+            if ok_:
+                rep.ok("R-SELFREF", b["key"], cfg=tag)
+            else:
+                rep.bad("R-SELFREF", b["key"], "safe function `%s` returns its `&%s` argument itself, re-typed, as a reference valid for %s: the result points at the handle value (a local or temporary), which lives only for %s - a caller can keep the returned view after the handle it was taken from is gone" % (b["sig"], r_in, r_out, r_in), F.loc(b), tag)
         # R-VARIANCE: no handle type is contravariant or bivariant in a payload or lifetime parameter (a `PhantomData<fn(T)>`
         # marker lets safe code *lengthen* a payload's lifetime: `ArcUnion<&'a X, B>` coerces to `ArcUnion<&'static X, B>`)
         for h, hp in F.handle_paths.items():
@@ -340,6 +370,12 @@ def rule_witnesses(ctx, rep, prefix="c13_"):
                 rep.sample({"witness": r["name"], "what": r["what"], "expected_errors": ["line %d: %s" % (l, cd) for l, cd in r["expected"]][:4] or "compiles"})
     rep.evaluations += total
     return total
+
+
+def balance_is_api(F, b):
+    from .. import balance
+
+    return balance.is_api(F, b)
 
 
 def run(ctx, rep):
